@@ -1,6 +1,6 @@
 SPECIFICATION Spec
-CONSTANTS MaxOps = 5
-          MaxLen = 4
+CONSTANTS MaxOps = 4
+          MaxLen = 3
 INVARIANT InsertProperty
 INVARIANT VgaIdempotent
 CONSTRAINT Bounded
